@@ -169,7 +169,12 @@ func (w *World) checkStep(prev, cur *snapshot, res StepResult, calls []simvk.Cal
 		}
 	} else if !w.cur.faulted && op.Name == "alloc" && w.faultFailedSlots[op.arg(0)] {
 		delete(w.faultFailedSlots, op.arg(0))
-		if res.Kind == "err" && res.Vk == simvk.ResUnknown {
+		// VKErrorUnknown is also what argument validation returns (contradictory flags, NeverAllocate with an
+		// implied dedicated allocation, ...): only a plain, valid request tells something about the slot itself
+		A := op.arg
+		plain := A(1) > 0 && A(2) > 0 && A(2)&(A(2)-1) == 0 && A(3) != 0 && (A(4) == uUnknown || A(4) == uAuto) &&
+			A(5)&^(fStratMinMemory|fStratMinTime|fStratMinOffset) == 0 && A(9) < 0
+		if res.Kind == "err" && res.Vk == simvk.ResUnknown && plain {
 			fs.add("C10", "slot-not-reusable-after-failed-operation", "slot %d cannot be allocated into after an operation on it failed (op %q)", op.arg(0), op.String())
 		}
 	}
